@@ -1,4 +1,5 @@
 // UNIT U-POOL: util/task_pool.rs  TaskPool::spawn   (DESIGN 5 / C08)
+#![feature(allocator_api)]
 #![allow(unused_imports, dead_code, unused_variables, unused_mut)]
 use vstd::prelude::*;
 use std::collections::VecDeque;
@@ -7,6 +8,7 @@ use std::sync::{Arc, Condvar, Mutex, MutexGuard};
 
 verus! {
 //@include prelude/sync.rs
+//@include prelude/vecdeque.rs
 
 pub assume_specification<T: ?Sized>[ Mutex::<T>::lock ](m: &Mutex<T>) -> (r: std::sync::LockResult<std::sync::MutexGuard<'_, T>>)
     ensures r is Ok, guard_of(&r->Ok_0) == m;
